@@ -426,9 +426,15 @@ Definition hstep (mods : list mspec) (h : hstate) (o : hop) : hstate * Z :=
               let sp := mkSpec cm fi ti (ms_nfun ms) (ms_nexp ms) (ms_npriv ms) (ms_nglob ms) (ms_size ms) (ms_elems ms)
                                (ms_nexpg ms) gi in
               let free := match lookup (h_name h) m with Some i => negb (registered s i) | None => true end in
-              if h_rt h && free && can_instantiate s sp then
-                (mkH (step s (OInstantiate sp)) (h_cm h) (set_nth (h_inst h) m (Some (length (heap s)))) (h_rt h)
-                     (set_nth (h_name h) m (Some (length (heap s)))) (h_fl h) (set_nth (h_bind h) m (h_inst h)), 0%Z)
+              if h_rt h && can_instantiate s sp then
+                if free then
+                  (mkH (step s (OInstantiate sp)) (h_cm h) (set_nth (h_inst h) m (Some (length (heap s)))) (h_rt h)
+                       (set_nth (h_name h) m (Some (length (heap s)))) (h_fl h) (set_nth (h_bind h) m (h_inst h)), 0%Z)
+                else
+                  (* Store.Instantiate builds the instance completely (element segments are applied to imported
+                     tables) and only then fails to register the name; the new instance is closed and forgotten *)
+                  let n := length (heap s) in
+                  (upd_st (step (step (step s (OInstantiate sp)) (OCloseModule n)) (ODrop n)), 1%Z)
               else (h, 1%Z)
           | _, _, _ => (h, 1%Z)
           end
